@@ -36,7 +36,7 @@ func newGen(seed int64) *gen {
 	return g
 }
 
-func (g *gen) pick(n int) int { return g.r.Intn(n) }
+func (g *gen) pick(n int) int        { return g.r.Intn(n) }
 func (g *gen) chance(p float64) bool { return g.r.Float64() < p }
 
 func (g *gen) tag() rscp.Tag {
